@@ -133,6 +133,42 @@ std::string handle(const std::string& op, Args& a)
 			double v0 = (p == 0) ? Integrate(f, x1, x2, m) : v;	  // default method_parameter is 0
 			o << v << v0;
 			r.out(o, 1);
+			o << Integrate(f, x2, x1, m, p);	 // reversed limits: must be the exact negative
+		});
+	}
+	if(op == "c13.neg")
+	{
+		// 'reversing the limits negates the result', per axis: base value, one axis reversed at a time, all reversed
+		int dim		  = a.i64();
+		std::string m = a.tok();
+		int p		  = a.i64();
+		if(dim != 2 && dim != 3)
+			throw BadArgs("dim");
+		double l[6];
+		for(int i = 0; i < 2 * dim; i++)
+			l[i] = a.dbl();
+		Fam f[3];
+		for(int i = 0; i < dim; i++)
+			f[i] = famarg(a);
+		a.end();
+		return run_forked([&](Out& o) {
+			auto call = [&](unsigned mask) {
+				double q[6];
+				for(int i = 0; i < dim; i++)
+				{
+					bool rev	 = (mask >> i) & 1;
+					q[2 * i]	 = rev ? l[2 * i + 1] : l[2 * i];
+					q[2 * i + 1] = rev ? l[2 * i] : l[2 * i + 1];
+				}
+				Fam g = f[0], h = f[1], k = f[2];
+				if(dim == 2)
+					return Integrate_2D([g, h](double x, double y) { return g(x) * h(y); }, q[0], q[1], q[2], q[3], m, p);
+				return Integrate_3D([g, h, k](double x, double y, double z) { return g(x) * h(y) * k(z); }, q[0], q[1], q[2], q[3], q[4], q[5], m, p);
+			};
+			o << call(0);
+			for(int i = 0; i < dim; i++)
+				o << call(1u << i);
+			o << call((1u << dim) - 1);
 		});
 	}
 	if(op == "c13.seq")
@@ -280,7 +316,8 @@ std::string handle(const std::string& op, Args& a)
 			double v = Integrate_3D(f, r1, r2, c1, c2, f1, f2, m, p);
 			// class D: the Cartesian overload on the integrand the wrapper is specified to build
 			double vn = v;
-			if(!is_mc(m))
+			// (judged for the fixed-node rules only: an adaptive rule may take another refinement decision on an ulp)
+			if(m == "Gauss-Legendre" || m == "Gauss-Legendre_2")
 			{
 				auto g = [&](double rr, double c, double ph) {
 					Vector rv = Spherical_Coordinates(rr, acos(c), ph);
